@@ -41,6 +41,22 @@ class HeaderName:
         return self
 
 
+class HdrSlot(Cell):
+    """A Cell view of the value of one HeaderMap entry (so that `*map.get_mut(name) = value` writes into the map)."""
+    __slots__ = ('hm', 'idx')
+
+    def __init__(self, hm, idx):
+        self.hm, self.idx = hm, idx
+
+    @property
+    def v(self):
+        return self.hm.entries[self.idx][1]
+
+    @v.setter
+    def v(self, val):
+        self.hm.entries[self.idx] = (self.hm.entries[self.idx][0], val)
+
+
 class HeaderMap:
     rust_type = 'HeaderMap'
 
@@ -75,22 +91,24 @@ class HeaderMap:
         if k is None:
             raise Unsupported('symbolic header name lookup')
         k = k.decode().lower()
-        for n, v in self.entries:
+        for i, (n, v) in enumerate(self.entries):
             if n.name == k:
-                return some(Ptr(Cell(v), ()))
+                return some(Ptr(HdrSlot(self, i), ()))
         return none()
 
 
 class Uri:
     rust_type = 'Uri'
 
-    def __init__(self, path, query=None, scheme_authority=b''):
+    def __init__(self, path, query=None, scheme_authority=b'', authority_form=False):
         self.path = list(path)
         self.query = None if query is None else list(query)
         self.prefix = scheme_authority
+        # authority-form request target ("example.com:443", CONNECT): no scheme, no path-and-query at all
+        self.authority_form = authority_form
 
     def clone(self, m):
-        return Uri(self.path, self.query, self.prefix)
+        return Uri(self.path, self.query, self.prefix, self.authority_form)
 
     def render(self):
         out = list(self.path)
@@ -98,6 +116,14 @@ class Uri:
             out.append(Int('u8', 0x3F))
             out.extend(self.query)
         return out
+
+
+class PathAndQuery:
+    """View of a Uri's path-and-query component (same path / query lists)."""
+    rust_type = 'PathAndQuery'
+
+    def __init__(self, uri):
+        self.path, self.query, self.prefix, self.authority_form = uri.path, uri.query, uri.prefix, False
 
 
 class Method:
@@ -139,6 +165,27 @@ def install(m):
 
     L['HeaderMap::iter'] = lambda m, a, c, rt: deref(m, a[0]).iter(m)
     L['HeaderMap::get'] = lambda m, a, c, rt: deref(m, a[0]).get(m, a[1])
+    L['HeaderMap::get_mut'] = L['HeaderMap::get']
+    L['HeaderMap::contains_key'] = lambda m, a, c, rt: deref(m, a[0]).get(m, a[1]).variant == 'Some'
+
+    def hv_from_static(m, a, c, rt):
+        es = elems_of(m, a[0])
+        # from_static panics on bytes that are not visible ASCII / tab
+        for e in es:
+            okb = ((0x20 <= e.v < 0x7F) or e.v == 0x09) if not e.sym else z3.Or(z3.And(z3.UGE(e.v, 0x20), z3.ULT(e.v, 0x7F)), e.v == 0x09)
+            if not m.ctx.branch(okb):
+                raise Panic('invalid header value')
+        return HeaderValue(es)
+    L['HeaderValue::from_static'] = hv_from_static
+
+    def hv_from_bytes(m, a, c, rt):
+        es = elems_of(m, a[0])
+        for e in es:
+            okb = ((0x20 <= e.v and e.v != 0x7F) or e.v == 0x09) if not e.sym else z3.Or(z3.And(z3.UGE(e.v, 0x20), e.v != 0x7F), e.v == 0x09)
+            if not m.ctx.branch(okb):
+                return err(Opaque('http::Error', 'InvalidHeaderValue'))
+        return ok(HeaderValue(es))
+    L['HeaderValue::from_bytes'] = hv_from_bytes
     L['HeaderMap::contains_key'] = lambda m, a, c, rt: deref(m, a[0]).get(m, a[1]).variant == 'Some'
 
     def hv_bytes(m, a, c, rt):
@@ -157,10 +204,19 @@ def install(m):
         u = deref(m, a[0])
         # http returns "/" for an empty path of a URI that has a scheme/authority; a bare path-and-query keeps it
         buf = VecObj(u.path, 'string')
-        if not u.path and u.prefix:
+        if not u.path and u.prefix and not getattr(u, 'authority_form', False):
             buf = VecObj([Int('u8', 0x2F)], 'string')
         return Ptr(buf, (), ('str', 0, len(buf.elems)))
     L['Uri::path'] = uri_path
+    L['PathAndQuery::path'] = uri_path
+
+    def uri_paq(m, a, c, rt):
+        # Some(&PathAndQuery) unless the URI has neither a scheme nor a path (authority form)
+        u = deref(m, a[0])
+        if getattr(u, 'authority_form', False):
+            return none()
+        return some(Ptr(Cell(PathAndQuery(u)), ()))
+    L['Uri::path_and_query'] = uri_paq
 
     def uri_query(m, a, c, rt):
         u = deref(m, a[0])
@@ -169,6 +225,7 @@ def install(m):
         buf = VecObj(u.query, 'string')
         return some(Ptr(buf, (), ('str', 0, len(buf.elems))))
     L['Uri::query'] = uri_query
+    L['PathAndQuery::query'] = uri_query
 
     L['Uri::builder'] = lambda m, a, c, rt: UriBuilder()
 
